@@ -598,3 +598,66 @@ class GEMMX_channelwise_launch_contract:
 
     def canary(sh, a, ret):
         check("canary: no CSR write", len([e for e in csr_events(list(ret)) if e[0] == "w"]) == 0)
+
+
+# =====================================================================================
+# which accelerator description a lowering pattern uses: the one registered in ITS OWN module, whatever other pattern
+# objects (of other modules, in the same process) have looked up before
+# =====================================================================================
+import snaxc.transforms.convert_accfg_to_csr as a2c  # noqa: E402
+
+
+class ModuleV:
+    def __init__(self, tag):
+        self.tag = tag
+
+
+class LookupCtxV:
+    """AccContext.get_acc_op_from_module as a pure function of (name, module): one description per pair"""
+
+    def __init__(self):
+        self.table = {}
+        self.calls = []
+
+    def get_acc_op_from_module(self, name, module):
+        self.calls.append((name, module))
+        key = (name, module.tag)
+        if key not in self.table:
+            self.table[key] = (ModuleV(("acc_op", name, module.tag)), ModuleV(("acc_info", name, module.tag)))
+        return self.table[key]
+
+
+@contract
+class LowerAccfgBasePattern_get_acc_contract:
+    """get_acc(name) of a pattern built for module M answers with M's accelerator op - for every order in which pattern
+    objects of two modules (a compiler process lowers more than one module) ask for the same or different names"""
+    target = "snaxc.transforms.convert_accfg_to_csr.LowerAccfgBasePattern.get_acc"
+    shapes = [dict(kinds=k, order=o) for k in (("setup", "setup"), ("setup", "launch"), ("launch", "await")) for o in ("m1_first", "m2_first", "interleaved")]
+    native = False
+    total = True
+    compare_ret = False
+
+    def args(sh, sym):
+        ctx = LookupCtxV()
+        m1, m2 = ModuleV("module1"), ModuleV("module2")
+        cls = dict(setup=a2c.LowerAccfgSetupToCsr, launch=a2c.LowerAccfgLaunchToCsr, **{"await": a2c.LowerAccfgAwaitToCsr})
+        p1 = cls[sh["kinds"][0]](m1, ctx)
+        p2 = cls[sh["kinds"][1]](m2, ctx)
+        return [p1, p2, ctx, m1, m2]
+
+    def run(sh, a):
+        p1, p2 = a[0], a[1]
+        seq = dict(m1_first=[(p1, "acc"), (p1, "other"), (p2, "acc"), (p2, "other"), (p1, "acc")],
+                   m2_first=[(p2, "acc"), (p1, "acc"), (p2, "acc"), (p1, "other")],
+                   interleaved=[(p1, "acc"), (p2, "acc"), (p1, "other"), (p2, "other"), (p2, "acc"), (p1, "acc")])[sh["order"]]
+        return [(p, n, p.get_acc(n)) for p, n in seq]
+
+    def ensures(sh, a, ret):
+        p1, p2, ctx, m1, m2 = a
+        for k, (p, n, r) in enumerate(ret):
+            m = m1 if p is p1 else m2
+            check(f"query {k}: the description of accelerator '{n}' registered in the pattern's own module", r[0].tag == ("acc_op", n, m.tag) and r[1].tag == ("acc_info", n, m.tag))
+        check("every lookup goes to the context with the pattern's own module", all(any(c[1] is m for m in (m1, m2)) for c in ctx.calls))
+
+    def canary(sh, a, ret):
+        check("canary: every query is answered from module1", all(r[0].tag[2] == "module1" for _, _, r in ret))
